@@ -62,6 +62,19 @@ def OptT(t):
     return Ty("Opt", (t,))
 
 
+CLS = Ty("Cls")          # a class object (value of a variable that holds one of the program's classes): an Int tag
+CLASS_IDS = {}           # qualname -> tag (>= 1)
+CLASS_BY_ID = {}         # tag -> front.ClassInfo
+
+
+def class_id(ci):
+    q = ci.qualname
+    if q not in CLASS_IDS:
+        CLASS_IDS[q] = len(CLASS_IDS) + 1
+        CLASS_BY_ID[CLASS_IDS[q]] = ci
+    return CLASS_IDS[q]
+
+
 def TupleT(ts):
     return Ty("Tuple", tuple(ts))
 
@@ -92,6 +105,8 @@ def _type_of_node(n):
             return Ty("IntMap")
         if nm == "IntMap2":
             return Ty("IntMap2")
+        if nm == "Cls":
+            return CLS
         simple = {"int": INT, "bool": BOOL, "str": STR, "datetime": DT, "timedelta": TD, "float": FLOAT,
                   "None": NONE, "JV": JV, "Seconds": FLOAT, "fn": FN}
         if nm in simple:
@@ -212,6 +227,8 @@ def sort_of(ty):
         return z3.ArraySort(I, I)
     if n == "IntMap2":
         return z3.ArraySort(I, I, I)
+    if n == "Cls":
+        return I
     raise Unsupported(f"no sort for {ty}")
 
 
@@ -273,6 +290,12 @@ def to_sort_term(v, ty):
             srt = sort_of(ty)
             return srt.mk(*[to_sort_term(x, a) for x, a in zip(v.t, ty.args)])
         return v.t
+    if ty == CLS and v.ty == FN and v.t[0] == "class":
+        return z3.IntVal(class_id(v.t[1]))
+    if ty.name == "Opt" and ty.args[0] == CLS and v.ty == FN and v.t[0] == "class":
+        return opt_of(ty).some(z3.IntVal(class_id(v.t[1])))
+    if ty.name == "Obj" and v.ty.name == "Obj":
+        return v.t          # a reference to an instance of a subclass where the base class is declared
     if ty.name == "Opt":
         inner = ty.args[0]
         if is_reflike(inner):
@@ -313,6 +336,8 @@ def to_sort_term(v, ty):
 
 
 def from_sort_term(t, ty):
+    if ty == CLS and z3.is_int_value(t) and t.as_long() in CLASS_BY_ID:
+        return Val(FN, ("class", CLASS_BY_ID[t.as_long()]))
     if ty.name == "Tuple":
         srt = sort_of(ty)
         return Val(ty, [from_sort_term(srt.accessor(0, i)(t), a) for i, a in enumerate(ty.args)])
